@@ -71,6 +71,11 @@ pub fn declared_footprint(p: &Program, warp: warp_core::WarpId, scope: &NodeId) 
             fp.a_read.insert(natt(a));
             fp.a_write.insert(natt(a));
         }
+        "DoubleSet" => {
+            fp.n_read.insert(nk(a));
+            fp.a_read.insert(natt(a));
+            fp.a_write.insert(natt(a));
+        }
         "CopyAtt" => {
             fp.n_read.insert(nk(b));
             fp.a_read.insert(natt(a));
@@ -141,6 +146,19 @@ fn interp_exec(k: usize, view: GraphView<'_>, scope: &NodeId, delta: &mut TickDe
                     key: AttachmentKey::node_alpha(nk(a)),
                     value: Some(AttachmentValue::Atom(ids::atom(&p.p))),
                 });
+            }
+        }
+        "DoubleSet" => {
+            // writes its own declared slot twice with different values: a merge conflict by construction
+            let has = view.node(&a).is_some();
+            let att = view.node_attachment(&a);
+            if has && !is_desc(att) {
+                for p2 in ["p0", "p1"] {
+                    own.push(WarpOp::SetAttachment {
+                        key: AttachmentKey::node_alpha(nk(a)),
+                        value: Some(AttachmentValue::Atom(ids::atom(p2))),
+                    });
+                }
             }
         }
         "CopyAtt" => {
